@@ -267,6 +267,9 @@ struct InnerMatcherHandle {
     hash: String,
     pool: sqlite_pool::RusqlitePool,
     parsed: ParsedSelect,
+    // tables the query only uses through primary key columns: a new row of such a table shows up as
+    // changes of columns the query never mentions
+    pk_only_tables: HashSet<String>,
     col_names: Vec<ColumnName>,
     cancel: CancellationToken,
     changes_tx: mpsc::Sender<MatchCandidates>,
@@ -324,7 +327,11 @@ impl Handle for MatcherHandle {
             .parsed
             .table_columns
             .get(change.table.as_str())
-            .map(|cols| change.column.is_crsql_sentinel() || cols.contains(change.column.as_str()))
+            .map(|cols| {
+                change.column.is_crsql_sentinel()
+                    || cols.contains(change.column.as_str())
+                    || self.inner.pk_only_tables.contains(change.table.as_str())
+            })
             .unwrap_or_default()
         {
             trace!("could not match against parsed query table and columns");
@@ -769,6 +776,17 @@ impl Matcher {
                     .read_only()
                     .create_pool()
                     .expect("could not build pool, this can't fail because we specified a runtime"),
+                pk_only_tables: parsed
+                    .table_columns
+                    .iter()
+                    .filter(|(tbl_name, cols)| {
+                        schema
+                            .tables
+                            .get(tbl_name.as_str())
+                            .is_some_and(|table| cols.iter().all(|col| table.pk.contains(col)))
+                    })
+                    .map(|(tbl_name, _)| tbl_name.clone())
+                    .collect(),
                 parsed: parsed.clone(),
                 col_names: col_names.clone(),
                 cancel: cancel.clone(),
